@@ -241,6 +241,11 @@ def ext_df_iloc(eng, df, args, kwargs):
     return row
 
 
+def ext_df_len(eng, df, args, kwargs):
+    eng.used_assumption(PANDAS)
+    return VInt(eng.llen(eng.read_field(df, 'pos', DF_POS)))
+
+
 def ext_np_copy(eng, selfv, args, kwargs):
     eng.used_assumption('numpy.copy(a) returns a fresh array with the same elements')
     return eng.list_copy(_as_list_any(eng, args[0]), LIST_ANY)
@@ -272,6 +277,7 @@ EXTERNALS = {
     'DataFrame.__setitem__': ext_df_setitem,
     'DataFrame.__contains__': ext_df_contains,
     'DataFrame.drop': ext_df_drop,
+    'DataFrame.__len__': ext_df_len,
     'DataFrame.iloc.__getitem__': ext_df_iloc,
     'numpy.copy': ext_np_copy,
     'isinstance': ext_isinstance,
